@@ -4,6 +4,7 @@ CONSTANTS
   MaxR = 6
   GenDraws = 1000
   MetricDraws = 1000
+  LevMaxCols = 4
   LevDraws = 1000
 POSTCONDITION TraceAccepted
 CHECK_DEADLOCK FALSE
